@@ -93,7 +93,12 @@ def _child(ob_name, tier, seed, conn):
         res = None
     except BaseException as e:  # noqa: BLE001
         try:
-            res = Result(ERROR, detail=f"{type(e).__name__}: {e}\n{traceback.format_exc()[-3000:]}", time_s=time.time() - t0)
+            if type(e).__name__ in ("OutsideSubset", "Undecided"):
+                # the code under check left the modelled subset of an engine and the obligation has no native fallback of its own:
+                # no proof on this tree - undecided, not a checker error
+                res = Result(UNDECIDED, detail=f"outside subset: {type(e).__name__}: {e}", time_s=time.time() - t0)
+            else:
+                res = Result(ERROR, detail=f"{type(e).__name__}: {e}\n{traceback.format_exc()[-3000:]}", time_s=time.time() - t0)
         except MemoryError:
             res = None
     try:
